@@ -159,10 +159,34 @@ func runMut(c MutCase) (res ev.Result) {
 	res.Classes = c.Ops
 	// non-trivial: the input gets past the header and the first chunk magic
 	res.Nontrivial = len(c.Input) >= 22 && string(c.Input[:4]) == "MThd"
-	_, v := generic(c.Input)
-	res.Violation = v
+	r1, v := generic(c.Input)
+	if v != "" {
+		res.Violation = v
+		return
+	}
+	// the result is a function of the bytes: reading something else in between (a file that stops
+	// in the middle of a track, then a complete one) must not change it
+	smf.ReadFrom(bytes.NewReader(interruptedFile))
+	r2, _ := generic(c.Input)
+	smf.ReadFrom(bytes.NewReader(completeFile))
+	r3, _ := generic(c.Input)
+	for _, r := range []readResult{r2, r3} {
+		if (r.err == nil) != (r1.err == nil) {
+			res.Violation = fmt.Sprintf("reading the same bytes again after reading another file gives a different outcome: first err=%v, then err=%v", r1.err, r.err)
+			return
+		}
+		if r.err == nil {
+			if d := adapt.DiffTracks(adapt.Tracks(r.s), adapt.Tracks(r1.s)); d != "" {
+				res.Violation = "reading the same bytes again after reading another file gives a different value: " + d
+				return
+			}
+		}
+	}
 	return
 }
+
+var interruptedFile = []byte("MThd\x00\x00\x00\x06\x00\x01\x00\x01\x00\x60MTrk\x00\x00\x00\x10\x00\x93\x40\x40\x10\x41")
+var completeFile = []byte("MThd\x00\x00\x00\x06\x00\x00\x00\x01\x00\x60MTrk\x00\x00\x00\x04\x00\xff\x2f\x00")
 
 var hostileSplices = [][]byte{
 	{0x00, 0xFF, 0x01, 0x90, 0x80, 0x80, 0x00},       // text meta declaring 2^25 bytes
@@ -280,7 +304,7 @@ func genMut(t *rapid.T) MutCase {
 }
 
 var mutants = ev.NewCheck("C05", "mutations",
-	"rapid: random byte strings, valid header + random body, and grammar-aware mutations of valid files: byte flips, status/data class swaps, inserted stray data or system bytes, deleted bytes, spliced hostile sequences (declared lengths 2^25..2^28-1 with the payload absent, early/duplicated end-of-track, chunk headers), header fields (ntrks 0 / too large, format >= 3, arbitrary SMPTE bytes, division 0), removed end-of-track, damaged chunk magic, chunk lengths, truncation; oracle: watchdog, no panic, allocation envelope, (value|error), no empty message in a returned value; non-trivial = input starts with MThd and is >= 22 bytes; distinct by input bytes; operator histogram in classes",
+	"rapid: random byte strings, valid header + random body, and grammar-aware mutations of valid files: byte flips, status/data class swaps, inserted stray data or system bytes, deleted bytes, spliced hostile sequences (declared lengths 2^25..2^28-1 with the payload absent, early/duplicated end-of-track, chunk headers), header fields (ntrks 0 / too large, format >= 3, arbitrary SMPTE bytes, division 0), removed end-of-track, damaged chunk magic, chunk lengths, truncation; oracle: watchdog, no panic, allocation envelope, (value|error), no empty message in a returned value, and the same bytes read again after an interrupted and after a complete read of other files give the same outcome (no state leaks between reads); non-trivial = input starts with MThd and is >= 22 bytes; distinct by input bytes; operator histogram in classes",
 	genMut, runMut)
 
 var boundary = ev.NewCheck("C05", "boundary-inputs",
